@@ -29,6 +29,7 @@ fn gen_tree(rng: &mut Rng, with_commands: bool) -> (Project, String) {
         }
     };
     let mut dirs: Vec<String> = vec![pre("")];
+    let _ = &mut dirs;
     // "ab" and "x/y2": siblings whose names extend a neighbour's name (string prefix, not ancestor)
     for d in ["a", "a/b", "a/b/c", "x", "x/y", "e.txtpp", "ab", "x/y2"] {
         if rng.chance(3, 5) {
@@ -105,6 +106,40 @@ fn gen_tree(rng: &mut Rng, with_commands: bool) -> (Project, String) {
         }
         text.push_str("end\n");
         p.add_file(s, B(text.into_bytes()));
+    }
+    // links to source files, in a directory of their own or beside other sources; a directory
+    // link that leaves its subtree; a directory link back to an ancestor
+    if rng.chance(1, 4) && !srcs.is_empty() {
+        let ld = pre("links");
+        p.add_dir(&ld);
+        dirs.push(ld.clone());
+        for (i, sp) in srcs.iter().enumerate() {
+            if rng.chance(1, 2) {
+                let name = match rng.below(3) {
+                    0 => format!("l{i}.txt.txtpp"),
+                    1 => format!("l{i}.txtpp.md"),
+                    _ => format!("l{i}.txtpp"),
+                };
+                let d = if rng.chance(2, 3) { ld.clone() } else { rng.pick(&dirs).clone() };
+                let path = if d.is_empty() { name } else { format!("{d}/{name}") };
+                p.entries.push(Entry::Symlink {
+                    target: rel_path(&d, sp),
+                    path,
+                });
+            }
+        }
+    }
+    if rng.chance(1, 6) && dirs.contains(&pre("x/y")) && dirs.contains(&pre("a")) {
+        p.entries.push(Entry::Symlink {
+            path: pre("x/y/out"),
+            target: "../../a".into(),
+        });
+    }
+    if rng.chance(1, 6) && dirs.contains(&pre("a/b")) {
+        p.entries.push(Entry::Symlink {
+            path: pre("a/b/up"),
+            target: "../..".into(),
+        });
     }
     // sources whose names are not valid UTF-8 (legal on Unix; spelled with U+F700+byte, see
     // tree::osp). Text cannot name them, so they are only ever found by directory scans.
